@@ -189,3 +189,119 @@ Proof.
       pose proof (rows_wf_first_lt_top tl (zlen vec) _ g0 0 Hwf'). lia.
   - rewrite <- Hn in Eok. exact (py_blocks_validation c ps G D vec Eok).
 Qed.
+
+(* ------------------------------------------------------------------ rf_write_blocks, continuous mode
+   The C library accepts one block per call in continuous mode, so the extension splits the call into
+   one digital_rf_write_hdf5 per block (py_rf_write_hdf5.c 265-288; split_blocks in the model).  For
+   arrays that pass the Python validation every sub-call is accepted, and the call as a whole has the
+   effect of the Spec steps of its blocks. *)
+
+Fixpoint blocks_of (G D : list Z) (vec : list Z) (vlen : Z) : list (Z * list Z) :=
+  match G, D with
+  | g :: G', dx :: D' =>
+    let nxt := match D' with d' :: _ => d' | [] => vlen end in
+    (g, slice vec dx (nxt - dx)) :: blocks_of G' D' vec vlen
+  | _, _ => []
+  end.
+
+Section LiftBlocks.
+  Variable c : cfg.
+  Variable R : wstate -> spec -> Prop.
+  Hypothesis R_cur : forall st s, R st s -> w_gi st = s_cur s.
+  Hypothesis R_call : forall st s g vec, 0 <= g -> R st s ->
+    if g <? w_gi st then write_one c st g vec = (-3, st)
+    else exists st', write_one c st g vec = (0, st') /\ R st' (spec_step c s (g, vec)).
+
+  (* blocks are "ascending" w.r.t. a cursor: each starts at or after the end of the previous one *)
+  Fixpoint ascending (cur : Z) (bs : list (Z * list Z)) : Prop :=
+    match bs with
+    | [] => True
+    | (g, v) :: tl => cur <= g /\ 0 <= g /\ 0 < zlen v /\ ascending (g + zlen v) tl
+    end.
+
+  Lemma split_blocks_spec : forall G D vec vlen st s,
+    length G = length D -> R st s -> ascending (s_cur s) (blocks_of G D vec vlen) ->
+    exists st', split_blocks c st G D vec vlen = (0, st') /\
+                R st' (fold_left (spec_step c) (blocks_of G D vec vlen) s).
+  Proof.
+    induction G as [|g G IH]; intros D vec vlen st s Hl HR Hasc.
+    - destruct D; [|discriminate]. exists st. split; [reflexivity|exact HR].
+    - destruct D as [|dx D]; [discriminate|]. cbn [split_blocks blocks_of fold_left] in *.
+      set (nxt := match D with d' :: _ => d' | [] => vlen end) in *.
+      destruct Hasc as (Hcur & Hg & Hlen & Hrest).
+      pose proof (R_call st s g (slice vec dx (nxt - dx)) Hg HR) as Hc.
+      rewrite (R_cur _ _ HR) in Hc.
+      assert (E : (g <? s_cur s) = false) by (apply Z.ltb_ge; lia). rewrite E in Hc.
+      destruct Hc as (st1 & Hw & HR1). rewrite Hw. cbn [Z.eqb negb].
+      apply IH; [cbn in Hl; lia|exact HR1|].
+      unfold spec_step. rewrite E. cbn [s_cur].
+      assert (E0 : (zlen (slice vec dx (nxt - dx)) =? 0) = false) by (apply Z.eqb_neq; lia).
+      rewrite E0. exact Hrest.
+  Qed.
+End LiftBlocks.
+
+(* the Python validation makes the blocks ascending *)
+Lemma py_ok_ascending next vec : forall G D,
+  py_arrays_ok next (zlen vec) G D = true -> first_nonneg (combine G D) ->
+  ascending next (blocks_of G D vec (zlen vec)).
+Proof.
+  intros G D Hok Hnn.
+  pose proof (py_valid_implies_c_valid _ _ _ _ Hok) as Hv.
+  destruct (valid_arrays_wf _ _ _ Hv) as (g0 & tl & E & Hge & Hvl & Hwf).
+  (* recover G and D from the combined list with equal lengths *)
+  unfold py_arrays_ok in Hok. destruct G as [|g G]; [discriminate|]. destruct D as [|d0 D]; [discriminate|].
+  repeat (apply andb_true_iff in Hok as [Hok ?]).
+  match goal with Hx : Nat.eqb _ _ = true |- _ => apply Nat.eqb_eq in Hx; rename Hx into Hlen end.
+  cbn [combine] in E. injection E as Eg Ed Etl. subst g0. subst d0.
+  cbn [first_nonneg combine] in Hnn.
+  clear - Hwf Hge Hlen Etl Hnn Hvl.
+  (* generalise over the running block *)
+  assert (Gen : forall G1 D1 g1 d1 tl1 top cur, length G1 = length D1 -> combine G1 D1 = tl1 ->
+            rows_wf ((g1, d1) :: tl1) (zlen vec) top -> cur <= g1 -> 0 <= g1 -> 0 <= d1 ->
+            ascending cur (blocks_of (g1 :: G1) (d1 :: D1) vec (zlen vec))).
+  { clear. induction G1 as [|g' G1 IH]; intros D1 g1 d1 tl1 top cur Hl Ec Hw Hc Hg Hd.
+    - destruct D1; [|discriminate]. cbn [combine] in Ec. subst tl1. cbn [blocks_of ascending].
+      cbn [rows_wf] in Hw.
+      rewrite slice_length by lia. repeat split; try lia.
+    - destruct D1 as [|d' D1]; [discriminate|]. cbn [combine] in Ec. subst tl1.
+      cbn [blocks_of]. cbn [ascending].
+      change (rows_wf ((g1, d1) :: (g', d') :: combine G1 D1) (zlen vec) top) in Hw.
+      cbn [rows_wf] in Hw. destruct Hw as (H1 & H2 & H3).
+      pose proof (rows_wf_offset_lt (combine G1 D1) (zlen vec) top g' d' H3) as Hod.
+      rewrite slice_length by lia.
+      split; [lia|]. split; [lia|]. split; [lia|].
+      apply (IH D1 g' d' (combine G1 D1) top); try lia; [cbn in Hl; lia|reflexivity|exact H3]. }
+  apply (Gen G D g 0 tl (rows_end g 0 tl (zlen vec)) next); try lia; [cbn in Hlen; lia|exact Etl|exact Hwf].
+Qed.
+
+(* the public rf_write_blocks in continuous mode (either layout): arrays that pass the Python
+   validation are accepted; the call returns the cursor after its last block and has the effect of the
+   Spec steps of its blocks; any other call raises ValueError and changes nothing *)
+Theorem py_rf_write_blocks_continuous c (R : wstate -> spec -> Prop) ps s G D vec :
+  (forall st s, R st s -> w_gi st = s_cur s) ->
+  (forall st s g vec, 0 <= g -> R st s ->
+     if g <? w_gi st then write_one c st g vec = (-3, st)
+     else exists st', write_one c st g vec = (0, st') /\ R st' (spec_step c s (g, vec))) ->
+  c_cont c = true -> (1 < length G)%nat ->
+  PyInv R ps s -> first_nonneg (combine G D) ->
+  if py_arrays_ok (s_cur s) (zlen vec) G D
+  then exists st', snd (py_rf_write_blocks c ps G D vec) =
+                     mkPy (w_gi st') (p_written ps + zlen vec) (p_gap ps + ((w_gi st' - p_next ps) - zlen vec)) false st' /\
+                   fst (py_rf_write_blocks c ps G D vec) = (OK, w_gi st') /\
+                   R st' (fold_left (spec_step c) (blocks_of G D vec (zlen vec)) s)
+  else (exists code, py_rf_write_blocks c ps G D vec = ((ValueError, code), ps)).
+Proof.
+  intros Rcur Rcall Hco Hmulti (Hcl & HR & Hn & H0) Hnn.
+  destruct (py_arrays_ok (s_cur s) (zlen vec) G D) eqn:Eok.
+  - rewrite <- Hn in Eok. rewrite (py_blocks_accepted c ps G D vec Eok Hcl). rewrite Hco.
+    assert (Em : (1 <? Z.of_nat (length G)) = true) by (apply Z.ltb_lt; lia). rewrite Em. cbn [andb].
+    assert (Hlen : length G = length D).
+    { unfold py_arrays_ok in Eok. destruct G; [discriminate|]. destruct D; [discriminate|].
+      repeat (apply andb_true_iff in Eok as [Eok ?]).
+      match goal with Hx : Nat.eqb _ _ = true |- _ => apply Nat.eqb_eq in Hx; exact Hx end. }
+    rewrite Hn in Eok.
+    destruct (split_blocks_spec c R Rcur Rcall G D vec (zlen vec) (p_w ps) s Hlen HR
+                (py_ok_ascending _ vec G D Eok Hnn)) as (st' & Hsp & HR').
+    rewrite Hsp. cbn [Z.eqb negb fst snd]. exists st'. auto.
+  - rewrite <- Hn in Eok. exact (py_blocks_validation c ps G D vec Eok).
+Qed.
